@@ -96,6 +96,13 @@ class World:
             small = r.choice([1, 2, max(1, N - 1), N]) if not wide else r.choice([1, 3])
             big = r.choice([N + 1, 3 * N, N + 7]) if not wide else N + r.choice([1, 40])
             op = gen.rand_pauli(r, n, r.randint(1, 4), ops="Z", constant=0.15, dup=0.1)
+            if wide:
+                # on a wide register: few-body terms (1-3 qubits anywhere in the register, also beyond qubit 7), more of them
+                terms = []
+                for _ in range(r.randint(3, 6)):
+                    qs = r.sample(range(n), r.choice([1, 2, 2, 2, 3]))
+                    terms.append({"ops": {str(q): "Z" for q in qs}, "c": r.choice([1.0, -1.0, 0.5, 2.0, -0.25])})
+                op = {"kind": "sum", "terms": terms}
             s = {"op": "views", "args": {"sim": r.randrange(4) if not wide else 0, "c": c, "kind": kind, "small": small, "big": big, "operator": op,
                                          "op_ref": r.randrange(2) if r.random() < 0.4 else None,
                                          "bessel": r.random() < 0.3},
